@@ -340,4 +340,102 @@ theorem ltoa_same_text_as_i64toa (num : BitVec 64) (base : BitVec 8) (hb : 2 ≤
 example : itoa (BitVec.ofInt 32 (-2147483648)) (List.replicate 12 0xA5#8) 10#16
     = some ([0x2D#8, 0x32#8, 0x31#8, 0x34#8, 0x37#8, 0x34#8, 0x38#8, 0x33#8, 0x36#8, 0x34#8, 0x38#8, 0#8], 0) := by decide
 
+/-- atol / atoi (with the LONG_MIN repair of fix-C11) invert ltoa / itoa in base 10:
+    the decimal text of every `long`, LONG_MIN included, parses back to it -/
+theorem atol_ltoa_inverse (v : BitVec 64) (m : List Byte)
+    (hm : (canonInt false 10 v.toInt).length + 1 ≤ m.length) :
+    ∃ m', ltoa v m 10#16 = some (m', 0) ∧ atol m' = some v := by
+  have h10 : (10#16 : BitVec 16).toNat = 10 := rfl
+  have h := ltoa_canonical v 10#16 (by rw [h10]; omega) m (by rw [h10]; exact hm)
+  rw [h10] at h
+  refine ⟨_, h, ?_⟩
+  have h1 := @BitVec.toInt_lt 64 v
+  have h2 := BitVec.le_toInt v
+  rw [atol_spec v.toInt (by simpa using h2) (by simpa using h1), BitVec.ofInt_toInt]
+
+theorem atoi_itoa_inverse (v : BitVec 32) (m : List Byte)
+    (hm : (canonInt false 10 v.toInt).length + 1 ≤ m.length) :
+    ∃ m', itoa v m 10#16 = some (m', 0) ∧ atoi m' = some v := by
+  have h10 : (10#16 : BitVec 16).toNat = 10 := rfl
+  have h := itoa_canonical v 10#16 (by rw [h10]; omega) m (by rw [h10]; exact hm)
+  rw [h10] at h
+  refine ⟨_, h, ?_⟩
+  have h1 := @BitVec.toInt_lt 32 v
+  have h2 := BitVec.le_toInt v
+  simp at h1 h2
+  rw [atoi, atol_spec v.toInt (by omega) (by omega)]
+  simp only [Option.map_some, BitVec.truncate_eq_setWidth, setWidth_ofInt64_32, BitVec.ofInt_toInt]
+
+/-! ## E. the debug-print renderers emit the same canonical text
+
+  The result of a printer is the sequence of characters it hands to `debug_putchar`. -/
+
+/-- debug_printdec_uint64 (and the unsigned_* / uint8..32 wrappers, which zero-extend):
+    the canonical decimal text; the 24-byte local buffer is never overrun -/
+theorem printdec_unsigned_canonical (x : BitVec 64) : printdecU64 x = some (canonNat false 10 x.toNat) :=
+  printdecU64_spec x
+
+/-- debug_printdec_signed_long_long (and the signed_* wrappers, which sign-extend): the canonical
+    decimal text of the signed value, LLONG_MIN included -/
+theorem printdec_signed_canonical (x : BitVec 64) : printdecSLL x = some (canonInt false 10 x.toInt) :=
+  printdecSLL_spec x
+
+/-- debug_printdec_* and igris_i64toa / igris_u64toa(base 10) agree character for character -/
+theorem printdec_same_text_as_toa (x : BitVec 64) (m : List Byte) (hm : 66 ≤ m.length) :
+    (∃ s, printdecSLL x = some s ∧ (i64toa x m 10#8).map (fun r => r.1.take r.2) = some s) ∧
+    (∃ s, printdecU64 x = some s ∧ (u64toa x m 10#8).map (fun r => r.1.take r.2) = some s) := by
+  have h10 : (10#8 : BitVec 8).toNat = 10 := rfl
+  have b1 := i64toa_bytes_le_66 x 10#8 (by rw [h10]; omega)
+  have b2 : (canonNat true 10 x.toNat).length + 1 ≤ 66 := by
+    have := digits_length_le_64 10 x.toNat (by omega) x.isLt
+    rw [canonNat_length]; omega
+  rw [h10] at b1
+  refine ⟨⟨_, printdecSLL_spec x, ?_⟩, ⟨_, printdecU64_spec x, ?_⟩⟩
+  · rw [i64toa_canonical x 10#8 (by rw [h10]; omega) m (by rw [h10]; omega), h10]; simp
+  · rw [u64toa_canonical x 10#8 (by rw [h10]; omega) m (by rw [h10]; omega), h10]
+    have := canonNat_dec x.toNat
+    simp [this]
+
+/-- the hexadecimal printers (`debug_printhex_uint8/16/32/64`, and through `debug_printhex_n`
+    the `unsigned_short … signed_long_long` family): the upper-case base-16 digits at the
+    full width of the type (`2 * bytes` characters, most significant first) -/
+theorem printhex_fixed_width (a16 : BitVec 16) (a32 : BitVec 32) (a64 : BitVec 64) (a8 : Byte) :
+    printhexU8 a8 = (fixedDigits 16 2 a8.toNat).map (digitChar true) ∧
+    printhexU16 a16 = (fixedDigits 16 4 a16.toNat).map (digitChar true) ∧
+    printhexU32 a32 = (fixedDigits 16 8 a32.toNat).map (digitChar true) ∧
+    printhexU64 a64 = (fixedDigits 16 16 a64.toNat).map (digitChar true) :=
+  ⟨printhexU8_spec a8, printhexBytes_spec 2 a16, printhexBytes_spec 4 a32, printhexBytes_spec 8 a64⟩
+
+/-- the binary printers: the base-2 digits at the full width of the type -/
+theorem printbin_fixed_width (a16 : BitVec 16) (a32 : BitVec 32) (a64 : BitVec 64) (a8 : Byte) :
+    printbinU8 a8 = (fixedDigits 2 8 a8.toNat).map (digitChar true) ∧
+    printbinU16 a16 = (fixedDigits 2 16 a16.toNat).map (digitChar true) ∧
+    printbinU32 a32 = (fixedDigits 2 32 a32.toNat).map (digitChar true) ∧
+    printbinU64 a64 = (fixedDigits 2 64 a64.toNat).map (digitChar true) :=
+  ⟨printbinU8_spec a8, printbinBytes_spec 2 a16, printbinBytes_spec 4 a32, printbinBytes_spec 8 a64⟩
+
+/-- the nibble printers, for the values they are meant for -/
+theorem print_nibble (b : Byte) (h : b.toNat < 16) :
+    printhexU4 b = (fixedDigits 16 1 b.toNat).map (digitChar true) ∧
+    printbinU4 b = (fixedDigits 2 4 b.toNat).map (digitChar true) :=
+  ⟨printhexU4_spec b h, printbinU4_spec b h⟩
+
+/-- "fixed width" is the canonical text, zero-padded on the left: the same digits that
+    igris_u64toa writes, preceded by as many `0` as the width requires -/
+theorem fixed_width_is_padded_canonical (b w n : Nat) (hb : 2 ≤ b) (hn : n < b ^ (w + 1)) :
+    (fixedDigits b (w + 1) n).map (digitChar true)
+      = List.replicate (w + 1 - (canonNat true b n).length) (digitChar true 0) ++ canonNat true b n := by
+  rw [fixedDigits_eq_pad hb w n hn, canonNat_length]
+  simp [canonNat]
+
+/-! ## F. vt100_left: `ESC [ <decimal> D`, NUL terminated, returns the length -/
+
+theorem vt100_left_text (arg : BitVec 32) (m : List Byte)
+    (hm : (canonInt false 10 arg.toInt).length + 4 ≤ m.length) :
+    vt100Left m arg
+      = some (0x1B#8 :: 0x5B#8 :: canonInt false 10 arg.toInt ++ 0x44#8 :: 0#8
+                :: m.drop ((canonInt false 10 arg.toInt).length + 4),
+              (canonInt false 10 arg.toInt).length + 3) :=
+  vt100Left_spec arg m hm
+
 end Igris.C07
